@@ -41,53 +41,63 @@ def one(rng: random.Random, k: int) -> dict:
         return {}
     victim = rng.choice(called)
     cls, args = EXC[k % len(EXC)]
+    # every third history fails TWICE on the same pipeline object (other keyword values the second time); the exception's
+    # args then name the invocation, and in half of those the user code raises one pre-built exception instance again
+    twice = k % 3 == 0
+    shared = twice and k % 6 == 0
     for fd in pd["funcs"]:
         if fd["name"] == victim:
-            fd["fail"] = {"when": "*", "cls": cls, "args": args, "prenote": k % 2 == 1}
+            fd["fail"] = {"when": "*", "cls": cls, "args": args, "prenote": k % 2 == 1, "argskw": twice, "shared": shared}
     build.LOG.clear()
     with contextlib.redirect_stdout(io.StringIO()):
         pl = build.make_pipeline(pd)
-    events = [ev(e="begin", out=o, kw=kw, mode="call")]
-    kwargs = {n: from_json(v) for n, v in kw}
-    try:
-        with contextlib.redirect_stdout(io.StringIO()):
-            pl(o, **kwargs) if k % 2 else pl.run(o, kwargs=kwargs)
-        events.append(ev(e="return"))
-    except Exception as ex:  # noqa: BLE001
-        fails = [r for r in build.LOG if r["e"] == "fail"]
-        for r in build.LOG:
-            if r["e"] == "call":
-                fd = build.REG[r["fid"]]
-                kwp = [[p, r["kwargs"][p]] for p in fd["params"]]
-                failed = any(x["fid"] == r["fid"] and x["n"] == r["n"] for x in fails)
-                events.append(ev(e="callfail" if failed else "call", f=r["f"], kwargs=kwp,
-                                 cls=cls if failed else "", args=[str(a) for a in args] if failed else []))
-        notes = list(getattr(ex, "__notes__", []) or [])
-        f0 = fails[0] if fails else None
-        attributed = bool(f0) and any(f0["f"] in n and all(f"{p}=" in n and (v["f"] == "#arr" or ("None" if v["f"] == "#none" else repr(from_json(v))) in n)
-                                                            for p, v in f0["kwargs"].items()) for n in notes)
-
-        def repro(s):
-            try:
-                with contextlib.redirect_stdout(io.StringIO()):
-                    s.reproduce()
-            except Exception as e2:  # noqa: BLE001
-                return [type(e2).__name__, [str(a) for a in e2.args]]
-            return ["<no exception>", []]
-        r1, r2 = ["<no snapshot>", []], ["<no snapshot>", []]
+    events: list[dict] = []
+    kws = [kw] + ([[[x, {"f": f"@k2_{x}", "a": []}] for x in cut]] if twice else [])
+    for j, kwj in enumerate(kws):
+        events.append(ev(e="begin", out=o, kw=kwj, mode="call"))
+        kwargs = {n: from_json(v) for n, v in kwj}
+        start = len(build.LOG)
         try:
-            snap = pl.error_snapshot
-            fsnap = next(pf for pf in pl.functions if pf.__name__ == victim).error_snapshot
-            if snap is not None and fsnap is not None:
-                r1 = repro(fsnap)
-                with tempfile.TemporaryDirectory() as td_:
-                    snap.save_to_file(td_ + "/s.pkl")
-                    from pipefunc._pipefunc import ErrorSnapshot
-                    r2 = repro(ErrorSnapshot.load_from_file(td_ + "/s.pkl"))
-        except Exception as e3:  # noqa: BLE001
-            r1 = [f"<snapshot error {type(e3).__name__}>", []]
-        events.append(ev(e="raise", cls=type(ex).__name__, args=[str(a) for a in ex.args], attributed=attributed,
-                         repro=r1, repro_loaded=r2))
+            with contextlib.redirect_stdout(io.StringIO()):
+                pl(o, **kwargs) if (k + j) % 2 else pl.run(o, kwargs=kwargs)
+            events.append(ev(e="return"))
+            break
+        except Exception as ex:  # noqa: BLE001
+            log = build.LOG[start:]
+            fails = [r for r in log if r["e"] == "fail"]
+            for r in log:
+                if r["e"] == "call":
+                    fd = build.REG[r["fid"]]
+                    kwp = [[p, r["kwargs"][p]] for p in fd["params"]]
+                    fl = next((x for x in fails if x["fid"] == r["fid"] and x["n"] == r["n"]), None)
+                    events.append(ev(e="callfail" if fl else "call", f=r["f"], kwargs=kwp,
+                                     cls=cls if fl else "", args=[str(a) for a in fl["args"]] if fl else []))
+            notes = list(getattr(ex, "__notes__", []) or [])
+            f0 = fails[0] if fails else None
+            attributed = bool(f0) and any(f0["f"] in n and all(f"{p}=" in n and (v["f"] == "#arr" or ("None" if v["f"] == "#none" else repr(from_json(v))) in n)
+                                                                for p, v in f0["kwargs"].items()) for n in notes)
+
+            def repro(s):
+                try:
+                    with contextlib.redirect_stdout(io.StringIO()):
+                        s.reproduce()
+                except Exception as e2:  # noqa: BLE001
+                    return [type(e2).__name__, [str(a) for a in e2.args]]
+                return ["<no exception>", []]
+            r1, r2 = ["<no snapshot>", []], ["<no snapshot>", []]
+            try:
+                snap = pl.error_snapshot
+                fsnap = next(pf for pf in pl.functions if pf.__name__ == victim).error_snapshot
+                if snap is not None and fsnap is not None:
+                    r1 = repro(fsnap)
+                    with tempfile.TemporaryDirectory() as td_:
+                        snap.save_to_file(td_ + "/s.pkl")
+                        from pipefunc._pipefunc import ErrorSnapshot
+                        r2 = repro(ErrorSnapshot.load_from_file(td_ + "/s.pkl"))
+            except Exception as e3:  # noqa: BLE001
+                r1 = [f"<snapshot error {type(e3).__name__}>", []]
+            events.append(ev(e="raise", cls=type(ex).__name__, args=[str(a) for a in ex.args], attributed=attributed,
+                             repro=r1, repro_loaded=r2))
     return {"desc": td, "ev": events, "victim": victim}
 
 
@@ -105,7 +115,7 @@ def run(ctx) -> None:
         e = t["ev"][reached - 1]
         clause = "surface"
         if e["e"] == "raise":
-            f0 = next((x for x in t["ev"] if x["e"] == "callfail"), {"cls": "", "args": []})
+            f0 = next((x for x in reversed(t["ev"][:reached]) if x["e"] == "callfail"), {"cls": "", "args": []})
             clause = ("retyped" if e["cls"] != f0["cls"] else "args-changed" if e["args"] != f0["args"] else
                       "not-attributed" if not e["attributed"] else "snapshot")
         ctx.violation({"check": "call-fail", "event": e["e"], "clause": clause, "cls": e.get("cls", "")},
